@@ -21,7 +21,9 @@ TInit == /\ tid = 1
          /\ cur = Blank(NoCfg.ps, 0)
 
 TNext == /\ tid <= Len(Traces)
-         /\ LET v == TraceVerdict(Traces[tid]) IN PrintT(<<"VERDICT", tid, v[1], v[2]>>)
+         /\ LET v == TraceVerdict(Traces[tid])
+                f == TraceCovers(Traces[tid])
+            IN PrintT(<<"VERDICT", tid, v[1], v[2], f[1], f[2], f[3], f[4], f[5], f[6]>>)
          /\ tid' = tid + 1
          /\ UNCHANGED vars
 
